@@ -96,7 +96,7 @@ func runC10(c *Ctx) {
 	r.Trust("fresh-result table (each entry confirmed by reading the pinned source)")
 	r.Rule("retention", "no value that may alias an input packet buffer is stored into long-lived state, sent on a channel or handed to a goroutine", 60)
 	r.Rule("seeds", "entry points whose parameters are seeded", 10)
-	r.Rule("sanity", "the analysis sees the packet flow: views returned by Parse are tainted; known sanitisers are clean", 4)
+	r.Rule("sanity", "the analysis sees the packet flow: views returned by Parse are tainted; known sanitisers are clean", 5)
 
 	e := buildTaint(c)
 	for p := range e.Seeds {
@@ -124,6 +124,51 @@ func runC10(c *Ctx) {
 			st = core.Violated
 		}
 		r.Add(core.Obligation{Rule: "sanity", Key: "sanity CopyMAC result is fresh", Func: "packet.CopyMAC", Status: st, Basis: "make + copy: result clean (computed)", Detail: "CopyMAC's result may alias its argument: " + strings.Join(e.RetTaint(cm), ",")})
+	}
+
+	// CopyIP is on the engine's table of callees whose result never aliases an argument, for a stated reason: "len 4:
+	// To16 allocates; otherwise make+copy". The reason is checked on every run: each value CopyIP returns is a fresh
+	// make, or net.IP.To16 of the argument under the test len(arg) == 4 (To16 returns its receiver for 16-byte input).
+	if cp := c.A.Func("", "CopyIP"); cp != nil {
+		st, det := core.Proved, ""
+		n := 0
+		var check func(v ssa.Value, at ssa.Instruction, depth int)
+		check = func(v ssa.Value, at ssa.Instruction, depth int) {
+			if depth > 6 {
+				st, det = core.Violated, "return value too deep to classify"
+				return
+			}
+			switch t := v.(type) {
+			case *ssa.MakeSlice:
+				n++
+			case *ssa.Phi:
+				for _, e := range t.Edges {
+					check(e, at, depth+1)
+				}
+			case *ssa.ChangeType:
+				check(t.X, at, depth+1)
+			case *ssa.Call:
+				cal := t.Common().StaticCallee()
+				if cal != nil && core.FuncName(cal) == "(net.IP).To16" && len(t.Common().Args) == 1 && t.Common().Args[0] == ssa.Value(cp.Params[0]) &&
+					hasGuard(guardsOf(t), `^\(len\(arg0\)==4\)$`) {
+					n++
+					return
+				}
+				st, det = core.Violated, "CopyIP returns "+norm(v)+" (guards: "+guardTexts(guardsOf(t))+"): net.IP.To16 and To4 return their receiver, not a copy, unless the input has 4 bytes, so the result can alias the caller's packet buffer"
+			default:
+				st, det = core.Violated, "CopyIP returns "+norm(v)+", which is neither a fresh make nor To16 of a 4-byte input: the result can alias the caller's packet buffer"
+			}
+		}
+		core.EachInstr(cp, func(i ssa.Instruction) {
+			if rt, ok := i.(*ssa.Return); ok && len(rt.Results) == 1 {
+				check(rt.Results[0], i, 0)
+			}
+		})
+		if n == 0 && st == core.Proved {
+			st, det = core.Undecided, "no return value of CopyIP recognised"
+		}
+		r.Add(core.Obligation{Rule: "sanity", Key: "sanity CopyIP result is fresh", Func: "packet.CopyIP", Pos: c.P.Pos(cp.Pos()), Status: st,
+			Basis: fmt.Sprintf("%d returned values: fresh make, or To16 of the argument under len == 4", n), Detail: det})
 	}
 
 	sink := newBoundsSink(c)
